@@ -19,6 +19,7 @@ import Qryn.Proofs.PlanClosedMetricX
 import Qryn.Proofs.SameShapeMetricX
 import Qryn.Proofs.SameShapeTraceQL
 import Qryn.Proofs.ProfPlansRender
+import Qryn.Proofs.ProfPlansRenderFull
 import Qryn.Proofs.PromLabelsClosed
 /-! # C10 — request strings can never change the structure of SQL sent to ClickHouse
 
@@ -645,10 +646,15 @@ theorem plan_closed_prof_labels (c : Prof.PCtx) (hc : Prof.PCtxOK c) (label : Op
   exact ⟨fun col h => closedBoth _ (Prof.labelsNoSel_closed c col label hc (hcol col h)),
     fun col h scripts hs => closedBoth _ (Prof.labelsUnion_closed c col label scripts hc (hcol col h) (fun q hq => (hs q hq).ok))⟩
 
-/-- the segment views are the texts of C13's `Sel` terms (`Prof/Planners.lean`, tied byte for byte to the real planners by the
-    `model-prof-plans` stream), FULL statement: for every statement, whenever the request strings the model routes through a
-    `String` survive `utf8` -/
-def prof_segs_are_model_text_full : Prop :=
+/-- **prof_segs_are_model_text_full.** The segment views are the texts of C13's `Sel` terms (`Prof/Planners.lean`, tied byte for
+    byte to the real planners by the `model-prof-plans` stream) for EVERY Pyroscope statement: merge profiles, merge stack traces
+    (`MergeRawPlanner` → `MergeJoinedPlanner` → `MergeAggregatedPlanner`), SelectSeries (`SelectSeriesPlanner` over
+    `GetLabelsPlanner`), Series for one selector set (`FilterLabelsPlanner` over `TimeSeriesSelectPlanner`), Series for any number
+    of selector sets (UNION ALL under `TimeSeriesDistinctPlanner`), LabelValues over the UNION ALL of selector statements, and
+    AnalyzeQuery (`ProfileSizePlanner`) — whenever the request strings the model routes through a `String` survive `utf8`.
+    Proof (`Proofs/ProfPlansRenderFull.lean`): `with_one_withs` — `outer.With(alias, inner)` hoists `inner`'s WITH list unchanged
+    when its aliases are pairwise different, for every `Sel` —, the alias lists along each stack (`RStA`), `render_unionB`. -/
+theorem prof_segs_are_model_text_full :
   ∀ (c : Prof.PCtx) (typeUnit : Bytes) (avg : Bool) (step : Int) (names : List Bytes) (label : Option Bytes) (fp m : Prof.PQuery)
     (scripts : List Prof.PQuery),
     Prof.PQueryU fp → (∀ g ∈ m.globals, g.okU) → (∀ q ∈ scripts, Prof.PQueryU q) → Prof.Utf8OK (quote typeUnit) →
@@ -660,13 +666,20 @@ def prof_segs_are_model_text_full : Prop :=
     renderSegs (Prof.planSeriesSegs c names (some fp)) = renderSel (Prof.planSeries c names (some fp)) ∧
     renderSegs (Prof.seriesUnionSegs c names scripts) = (Prof.seriesUnion c names scripts).render ∧
     renderSegs (Prof.labelsUnionSegs c "val" label scripts) = (Prof.labelsUnion c "val" label scripts).render ∧
-    renderSegs (Prof.analyzeQuerySegs c fp) = renderSel (Prof.analyzeQuery c fp)
+    renderSegs (Prof.analyzeQuerySegs c fp) = renderSel (Prof.analyzeQuery c fp) :=
+  fun c typeUnit avg step names label fp m scripts hq hg hs hu1 hu2 hu3 =>
+    ⟨Prof.mergeProfilesSegs_render c fp m.globals hq hg,
+     Prof.mergeTracesSegs_render c typeUnit fp m.globals hq hg hu1,
+     Prof.selectSeriesSegs_render c typeUnit avg step names fp m.globals hq hg hu2 hu3,
+     Prof.planSeriesSegs_render c names (some fp) (fun q h => by cases h; exact hq) hu2,
+     Prof.seriesUnionSegs_render c names scripts hs hu2,
+     Prof.labelsUnionSegs_render c "val" label scripts hs,
+     Prof.analyzeQuerySegs_render c fp hq⟩
 
-/-- **prof_segs_are_model_text_partial.** PROVED part of the above: the selector statement, merge profiles, the raw select of
+/-- **prof_segs_are_model_text_partial.** The same for the statements the ones above are stacked on (kept under its name; no
+    longer partial — `prof_segs_are_model_text_full` is a theorem): the selector statement, merge profiles, the raw select of
     merge stack traces, the labels select of SelectSeries, the one-set series select, series without a selector, label
-    names / values without a selector set and the main select of the union form. MISSING (the `WITH` hoisting of the
-    statements stacked on these, and the two UNION statements): covered by execution — the `prof-segs` stream compares the
-    text of EVERY segment view with the real planners' text byte for byte. -/
+    names / values without a selector set and the main select of the union form. -/
 theorem prof_segs_are_model_text_partial (c : Prof.PCtx) (typeUnit : Bytes) (names : List Bytes) (label : Option Bytes) (col : String)
     (fp m : Prof.PQuery) (hq : Prof.PQueryU fp) (hg : ∀ g ∈ m.globals, g.okU) :
     renderSegs (Prof.selectorSegs c fp) = renderSel (Prof.selectorSel c fp) ∧
@@ -684,6 +697,91 @@ theorem prof_segs_are_model_text_partial (c : Prof.PCtx) (typeUnit : Bytes) (nam
    fun hu => Prof.getLabelsSegs_render c names fp m.globals hq hg hu,
    Prof.timeSeriesSelectSegs_render c fp m.globals hq hg, Prof.allTimeSeriesSegs_render c,
    Prof.labelsNoSelSegs_render c col label, Prof.labelsSelSegs_render c col label true⟩
+
+/-! ### `plan_closed_prof_*` about the text of C13's model terms
+
+    C13's `prof_*_confined` theorems are about the `Sel` terms of `Prof/Planners.lean` (`confined cfg win (Prof.mergeTraces …)`, …);
+    `model-prof-plans` ties `renderSel` of those terms to the real planners' text. With `prof_segs_are_model_text_full` the
+    closedness theorems above become statements about THAT text: `renderSel (Prof.… …)` is the rendering of a segment list
+    that is well formed for its leaves, so its token structure does not depend on any request string. Hypotheses besides those of
+    `plan_closed_prof_*`: the strings the C13 model keeps inside a `String` survive `utf8` (`PQueryU`, `PCond.okU`, `Utf8OK`). -/
+
+private theorem modelText {segs : List Seg} {t : Bytes} (hr : renderSegs segs = t) (h : safeSegs .normal segs = true) :
+    t = renderSegs segs ∧ safeSegs .normal segs = true ∧ kinds t = kinds (renderSegs (segs.map Seg.shape)) :=
+  ⟨hr.symm, h, hr ▸ render_structure_invariant _ h⟩
+
+/-- **plan_closed_prof_merge_profiles_model.** SelectMergeProfile and AnalyzeQuery: the text of C13's `mergeProfiles` /
+    `analyzeQuery` terms (`prof_merge_profiles_confined`, `prof_analyze_query_confined`). -/
+theorem plan_closed_prof_merge_profiles_model (c : Prof.PCtx) (hc : Prof.PCtxOK c) (fp m : Prof.PQuery) (hfp : ProfPlanned fp)
+    (hm : ProfPlanned m) (hq : Prof.PQueryU fp) (hg : ∀ g ∈ m.globals, g.okU) :
+    (renderSel (Prof.mergeProfiles c fp m.globals) = renderSegs (Prof.mergeProfilesSegs c fp m.globals) ∧
+      safeSegs .normal (Prof.mergeProfilesSegs c fp m.globals) = true ∧
+      kinds (renderSel (Prof.mergeProfiles c fp m.globals)) =
+        kinds (renderSegs ((Prof.mergeProfilesSegs c fp m.globals).map Seg.shape))) ∧
+    (renderSel (Prof.analyzeQuery c fp) = renderSegs (Prof.analyzeQuerySegs c fp) ∧
+      safeSegs .normal (Prof.analyzeQuerySegs c fp) = true ∧
+      kinds (renderSel (Prof.analyzeQuery c fp)) = kinds (renderSegs ((Prof.analyzeQuerySegs c fp).map Seg.shape))) :=
+  ⟨modelText (Prof.mergeProfilesSegs_render c fp m.globals hq hg) (plan_closed_prof_merge_profiles c hc fp m hfp hm).1.1,
+   modelText (Prof.analyzeQuerySegs_render c fp hq) (plan_closed_prof_merge_profiles c hc fp m hfp hm).2.1⟩
+
+/-- **plan_closed_prof_merge_traces_model.** SelectMergeStacktraces & co: the text of C13's `mergeTraces` term
+    (`prof_merge_traces_confined`) — WITH `fp`, `raw`, `pre_joined`, `joined` and the two bracketed selects. -/
+theorem plan_closed_prof_merge_traces_model (c : Prof.PCtx) (hc : Prof.PCtxOK c) (typeUnit : Bytes) (fp m : Prof.PQuery)
+    (hfp : ProfPlanned fp) (hm : ProfPlanned m) (hq : Prof.PQueryU fp) (hg : ∀ g ∈ m.globals, g.okU)
+    (hu : Prof.Utf8OK (quote typeUnit)) :
+    renderSel (Prof.mergeTraces c typeUnit fp m.globals) = renderSegs (Prof.mergeTracesSegs c typeUnit fp m.globals) ∧
+      safeSegs .normal (Prof.mergeTracesSegs c typeUnit fp m.globals) = true ∧
+      kinds (renderSel (Prof.mergeTraces c typeUnit fp m.globals)) =
+        kinds (renderSegs ((Prof.mergeTracesSegs c typeUnit fp m.globals).map Seg.shape)) :=
+  modelText (Prof.mergeTracesSegs_render c typeUnit fp m.globals hq hg hu) (plan_closed_prof_merge_traces c hc typeUnit fp m hfp hm).1
+
+/-- **plan_closed_prof_select_series_model.** SelectSeries: the text of C13's `selectSeries … (getLabels …)` term
+    (`prof_select_series_confined`). -/
+theorem plan_closed_prof_select_series_model (c : Prof.PCtx) (hc : Prof.PCtxOK c) (typeUnit : Bytes) (avg : Bool) (step : Int)
+    (groupBy : List Bytes) (fp m : Prof.PQuery) (hfp : ProfPlanned fp) (hm : ProfPlanned m) (hq : Prof.PQueryU fp)
+    (hg : ∀ g ∈ m.globals, g.okU) (hu1 : Prof.Utf8OK (renderExpr (.isIn (.raw "x.1") (groupBy.map .str))))
+    (hu2 : Prof.Utf8OK (renderExpr (eq (.raw "x.1") (.str typeUnit)))) :
+    renderSel (Prof.selectSeries c typeUnit avg step (Prof.getLabels c groupBy fp m.globals) m.globals) =
+        renderSegs (Prof.selectSeriesSegs c typeUnit avg step groupBy fp m.globals) ∧
+      safeSegs .normal (Prof.selectSeriesSegs c typeUnit avg step groupBy fp m.globals) = true ∧
+      kinds (renderSel (Prof.selectSeries c typeUnit avg step (Prof.getLabels c groupBy fp m.globals) m.globals)) =
+        kinds (renderSegs ((Prof.selectSeriesSegs c typeUnit avg step groupBy fp m.globals).map Seg.shape)) :=
+  modelText (Prof.selectSeriesSegs_render c typeUnit avg step groupBy fp m.globals hq hg hu1 hu2)
+    (plan_closed_prof_select_series c hc typeUnit avg step groupBy fp m hfp hm).1
+
+/-- **plan_closed_prof_series_model.** Series: the text of C13's `planSeries` term (no selector set / one; `prof_series_confined`)
+    and of its `seriesUnion` statement (any number of sets; `prof_series_union_confined`). -/
+theorem plan_closed_prof_series_model (c : Prof.PCtx) (hc : Prof.PCtxOK c) (labels : List Bytes)
+    (hu : Prof.Utf8OK (renderExpr (.isIn (.raw "x.1") (labels.map .str)))) :
+    (∀ sel : Option Prof.PQuery, (∀ q, sel = some q → ProfPlanned q ∧ Prof.PQueryU q) →
+      renderSel (Prof.planSeries c labels sel) = renderSegs (Prof.planSeriesSegs c labels sel) ∧
+      safeSegs .normal (Prof.planSeriesSegs c labels sel) = true ∧
+      kinds (renderSel (Prof.planSeries c labels sel)) = kinds (renderSegs ((Prof.planSeriesSegs c labels sel).map Seg.shape))) ∧
+    (∀ scripts : List Prof.PQuery, (∀ q ∈ scripts, ProfPlanned q ∧ Prof.PQueryU q) →
+      (Prof.seriesUnion c labels scripts).render = renderSegs (Prof.seriesUnionSegs c labels scripts) ∧
+      safeSegs .normal (Prof.seriesUnionSegs c labels scripts) = true ∧
+      kinds (Prof.seriesUnion c labels scripts).render =
+        kinds (renderSegs ((Prof.seriesUnionSegs c labels scripts).map Seg.shape))) :=
+  ⟨fun sel h => modelText (Prof.planSeriesSegs_render c labels sel (fun q hq => (h q hq).2) hu)
+      ((plan_closed_prof_series c hc labels).1 sel (fun q hq => (h q hq).1)).1,
+   fun scripts h => modelText (Prof.seriesUnionSegs_render c labels scripts (fun q hq => (h q hq).2) hu)
+      ((plan_closed_prof_series c hc labels).2 scripts (fun q hq => (h q hq).1)).1⟩
+
+/-- **plan_closed_prof_labels_model.** LabelNames / LabelValues: the text of C13's `labelsNoSel` term (`prof_labels_confined`) and
+    of its `labelsUnion` statement (`prof_labels_union_confined`); the requested label name is a leaf of the model itself. -/
+theorem plan_closed_prof_labels_model (c : Prof.PCtx) (hc : Prof.PCtxOK c) (label : Option Bytes) :
+    (∀ col, col = "key" ∨ col = "val" →
+      renderSel (Prof.labelsNoSel c col label) = renderSegs (Prof.labelsNoSelSegs c col label) ∧
+      safeSegs .normal (Prof.labelsNoSelSegs c col label) = true ∧
+      kinds (renderSel (Prof.labelsNoSel c col label)) = kinds (renderSegs ((Prof.labelsNoSelSegs c col label).map Seg.shape))) ∧
+    (∀ col, col = "key" ∨ col = "val" → ∀ scripts : List Prof.PQuery, (∀ q ∈ scripts, ProfPlanned q ∧ Prof.PQueryU q) →
+      (Prof.labelsUnion c col label scripts).render = renderSegs (Prof.labelsUnionSegs c col label scripts) ∧
+      safeSegs .normal (Prof.labelsUnionSegs c col label scripts) = true ∧
+      kinds (Prof.labelsUnion c col label scripts).render =
+        kinds (renderSegs ((Prof.labelsUnionSegs c col label scripts).map Seg.shape))) :=
+  ⟨fun col h => modelText (Prof.labelsNoSelSegs_render c col label) ((plan_closed_prof_labels c hc label).1 col h).1,
+   fun col h scripts hs => modelText (Prof.labelsUnionSegs_render c col label scripts (fun q hq => (hs q hq).2))
+      ((plan_closed_prof_labels c hc label).2 col h scripts (fun q hq => (hs q hq).1)).1⟩
 
 /-! ## The Prometheus metadata endpoints: labels, label values, series with `match[]` -/
 
@@ -1007,6 +1105,20 @@ example : TraceQL.sameShapeT TraceQL.SameShapeEx.scriptEmpty TraceQL.SameShapeEx
 example : ProfPlanned ((Prof.plan (fun _ _ => false) "t" [50] [51]
     [⟨[95, 95, 110, 97, 109, 101, 95, 95], .eq, [39]⟩, ⟨[39, 92], .re, [47, 42]⟩]).get (by decide +kernel)) :=
   ⟨_, _, _, _, _, (Option.some_get _).symm⟩
+-- `plan_closed_prof_*_model` / `prof_segs_are_model_text_full`: a planned request with hostile bytes in a pseudo-label value (inside
+-- the `arrayExists` closure), an ordinary name and value and a regular expression satisfies the `utf8` hypotheses (decided)
+private def exPQ : Prof.PQuery := (Prof.plan (fun _ _ => false) "t" [50] [51]
+    [⟨[95, 95, 115, 97, 109, 112, 108, 101, 95, 116, 121, 112, 101, 95, 95], .eq, [39, 92, 45, 45]⟩,
+     ⟨[39, 45, 45], .eq, [92, 39]⟩, ⟨[97], .re, [39, 41, 45, 45]⟩]).get (by decide +kernel)
+private def exPCtx : Prof.PCtx :=
+  { fromNs := 1700000000000000000, toNs := 1700000360000000000, limit := 10, ginTable := "profiles_series_gin",
+    ginDistTable := "`qryn`.profiles_series_gin_dist", seriesTable := "profiles_series", seriesDistTable := "profiles_series_dist",
+    profilesDistTable := "profiles_dist" }
+private theorem exPQ_planned : ProfPlanned exPQ := ⟨_, _, _, _, _, (Option.some_get _).symm⟩
+example := plan_closed_prof_merge_traces_model exPCtx (by constructor <;> decide +kernel) [39, 92, 45, 45] exPQ exPQ exPQ_planned
+  exPQ_planned (by decide +kernel) (by decide +kernel) (by decide +kernel)
+example := (plan_closed_prof_labels_model exPCtx (by constructor <;> decide +kernel) (some [39, 92])).2 "val" (Or.inr rfl) [exPQ, exPQ]
+  (by intro q hq; simp at hq; subst hq; exact ⟨exPQ_planned, by decide +kernel⟩)
 example : ∃ u, Prom.Labels.fpUnion (fun _ _ => false) "time_series_gin" [50] 2
     [[⟨[39, 45, 45], .eq, [92, 39]⟩], [⟨[97], .nre, [39, 41, 59]⟩, ⟨[98], .re, [0]⟩]] = some u := ⟨_, rfl⟩
 -- Tempo: hostile tag names / values under all four conditions, every optional clause present
